@@ -71,9 +71,28 @@
 (*                   deadlock checking on and `Done` the only stuttering    *)
 (*                   state, every behaviour ends in "done" (termination)    *)
 (*                                                                         *)
-(* Not modelled: phantom bytes and the application of relocations (the      *)
-(* driver's corpus transforms cover relocatable files metamorphically: the  *)
-(* relocated view of a re-encoded object must equal that of the plain one). *)
+(* Options across a link (family "rlink", and `reloc` in family "chain"):    *)
+(* the client's two options - follow_links and relocate_dwarf_sections -     *)
+(* govern the sections of whichever file carries them.  To make the second   *)
+(* one observable the carrier of family "rlink" is a relocatable object      *)
+(* (gABI ch.4 "Relocation": ET_REL, a SHT_RELA / SHT_REL section whose        *)
+(* sh_info names the section it applies to and whose sh_link names the       *)
+(* symbol table; the psABIs' "S + A" word relocations R_X86_64_64/32,        *)
+(* R_386_32, R_MIPS_32, R_PPC64_ADDR64/32; Elf_Rela carries A, Elf_Rel takes  *)
+(* it from the place; relocation offsets refer to the UNCOMPRESSED data,     *)
+(* gABI "Section compression") with one relocation on a DW_FORM_strp field   *)
+(* of .debug_info against a symbol inside .debug_str: the stored bytes and   *)
+(* the relocated bytes are both well-formed and differ (RelocMatters).  The  *)
+(* machine applies it (action Relocate, after inflation) exactly when the    *)
+(* option says so - also in the file behind .gnu_debuglink - and the view    *)
+(* expected with relocate_dwarf_sections = FALSE is the stored one.          *)
+(* An unstripped file that carries a .gnu_debuglink (home = main, dl # none) *)
+(* names a file with a DIFFERENT payload (PayloadDecoy): debugging            *)
+(* information of its own, in whichever naming/encoding, wins over the link. *)
+(* Not modelled: phantom bytes; relocation types other than S + A (C09 owns   *)
+(* them; the driver's corpus transforms cover compiler-made relocatable files *)
+(* metamorphically: the view of a re-encoded / split object must equal that  *)
+(* of the plain one under the same options).                                 *)
 (* Not asserted (the property does not fix it): a file that carries both    *)
 (* its own debug sections and a .gnu_debuglink with a wrong CRC may load P  *)
 (* or reject the link (`alt`); .debug_X and .zdebug_X of the same X in one  *)
@@ -87,7 +106,7 @@ CONSTANTS ClsLeAll,      \* class / byte-order pairs of the encoding family
           ClsLeLinks,    \* ... of the link families
           VerFmts,       \* DWARF version / format pairs of the encoding family
           Plans,         \* encoding plans of the encoding family
-          Families,      \* subset of {"enc", "nodwarf", "dlink", "sup", "chain"}
+          Families,      \* subset of {"enc", "nodwarf", "dlink", "sup", "chain", "rlink"}
           Wide,          \* BOOLEAN: per-section plans in every DWARF flavour (else one per class/byte order); questions after every
                          \* encoding of the supplementary file (else after its plain encoding)
           MaxQueries     \* how many questions the client asks the loaded object (< 8; 0: none)
@@ -112,6 +131,10 @@ BadMagic == <<90, 76, 73, 67>>                                                  
 SrcName == <<97, 46, 99>>                                                                   \* "a.c"
 SupFileName == <<120, 46, 115, 117, 112>>                                                   \* "x.sup"
 DotDbg == <<46, 100, 98, 103>>                                                              \* ".dbg"
+DotSymtab == <<46, 115, 121, 109, 116, 97, 98>>                                              \* ".symtab"
+DotStrtab == <<46, 115, 116, 114, 116, 97, 98>>                                              \* ".strtab"
+DotRela == <<46, 114, 101, 108, 97>>                                                        \* ".rela"
+DotRel == <<46, 114, 101, 108>>                                                             \* ".rel"
 HasPrefix(s, p) == Len(s) >= Len(p) /\ SubSeq(s, 1, Len(p)) = p
 \* the legacy GNU name of a .debug_X section
 ZName(n) == DotZdebugPrefix \o SubSeq(n, Len(DotDebugPrefix) + 1, Len(n))
@@ -159,14 +182,24 @@ MainDecls(c) ==
      Decl(2, TagVariable, FALSE, <<Spec1(AtName, "DW_FORM_string"), Spec1(AtConst, "DW_FORM_data1")>>),
      Decl(3, TagVariable, FALSE, <<Spec1(AtName, "DW_FORM_strp")>>) >>
   \o (IF AltFormOf(c.sup) # "" THEN <<Decl(4, TagTypedef, FALSE, <<Spec1(AtName, AltFormOf(c.sup))>>)>> ELSE <<>>)
-MainDies(c) ==
+MainDiesOf(c, const, strp3) ==
   << Die(1, <<A("DW_FORM_strp", N(StrOffs[2]))>> \o (IF c.line THEN <<A(StmtForm(c), N(0))>> ELSE <<>>)),
-     Die(2, <<A("DW_FORM_string", B(<<104, 105>>)), A("DW_FORM_data1", N(165))>>),
-     Die(3, <<A("DW_FORM_strp", N(StrOffs[4]))>>) >>                       \* the string longer than a 64-byte read chunk
+     Die(2, <<A("DW_FORM_string", B(<<104, 105>>)), A("DW_FORM_data1", N(const))>>),
+     Die(3, <<A("DW_FORM_strp", N(strp3))>>) >>                            \* the string longer than a 64-byte read chunk
   \o (IF AltFormOf(c.sup) # "" THEN <<Die(4, <<A(AltFormOf(c.sup), N(SupStrOff))>>)>> ELSE <<>>)
   \o <<NullDie>>
+MainDies(c) == MainDiesOf(c, 165, StrOffs[4])
 MainUnit(c) == [U0 EXCEPT !.ctx = PCtx(c), !.utype = IF c.ver >= 5 THEN "DW_UT_compile" ELSE "legacy",
                           !.abbrevs = MainDecls(c), !.dies = MainDies(c)]
+\* the relocatable carrier: the DW_FORM_strp field of the third entry is relocated against a symbol at offset RelSymValue of
+\* .debug_str (S) with addend RelAddend (A): S + A = StrOffs[4]; the stored field holds A (the place of an Elf_Rel entry IS the
+\* addend; an Elf_Rela entry ignores the place), which designates the tail "c" of "abc" - both readings are well-formed
+RelSymValue == StrOffs[3]
+RelAddend == StrOffs[4] - StrOffs[3]
+UnrelocUnit(c) == [MainUnit(c) EXCEPT !.dies = MainDiesOf(c, 165, RelAddend)]
+RelFieldOff(c) == UnitView(MainUnit(c), 0).dies[3].attrs[1].off
+\* another payload (what the file named by the link of an UNSTRIPPED file holds)
+DecoyUnit(c) == [MainUnit(c) EXCEPT !.dies = MainDiesOf(c, 90, StrOffs[5])]
 SupDecls == << Decl(1, TagPartial, TRUE, <<>>), Decl(2, TagBaseType, FALSE, <<Spec1(AtName, "DW_FORM_strp")>>) >>
 SupUnit(c) == [U0 EXCEPT !.ctx = PCtx(c), !.utype = IF c.ver >= 5 THEN "DW_UT_partial" ELSE "legacy",
                          !.abbrevs = SupDecls, !.dies = <<Die(1, <<>>), Die(2, <<A("DW_FORM_strp", N(1))>>), NullDie>>]
@@ -207,15 +240,20 @@ PlainName(l) == CASE l = "info" -> DotDebugInfo [] l = "abbrev" -> DotDebugAbbre
 Absent == [p |-> FALSE, b |-> <<>>]
 Have(b) == [p |-> TRUE, b |-> b]
 \* P: the logical content of the debug sections of the file that carries them; S: of the supplementary file
-PayloadP(c) ==
+PayloadOf(c, unit) ==
   IF c.sup = "is_sup"
   THEN [l \in LogSet |-> CASE l = "info" -> Have(InfoBytes(<<SupUnit(c)>>)) [] l = "abbrev" -> Have(EncAbbrevs(SupDecls)) [] l = "str" -> Have(SupStrSec)
                            [] l = "debug_sup" -> Have(DebugSupRec(c, 1, <<>>)) [] OTHER -> Absent]
-  ELSE [l \in LogSet |-> CASE l = "info" -> Have(InfoBytes(<<MainUnit(c)>>)) [] l = "abbrev" -> Have(EncAbbrevs(MainDecls(c))) [] l = "str" -> Have(StrSec)
+  ELSE [l \in LogSet |-> CASE l = "info" -> Have(InfoBytes(<<unit>>)) [] l = "abbrev" -> Have(EncAbbrevs(MainDecls(c))) [] l = "str" -> Have(StrSec)
                            [] l = "line" -> IF c.line THEN Have(LineSec(PCtx(c))) ELSE Absent
                            [] l = "debug_sup" -> IF c.sup = "debug_sup" THEN Have(DebugSupRec(c, 0, SupFileName)) ELSE Absent
                            [] l = "altlink" -> IF c.sup = "altlink" THEN Have(AltLinkRec(SupFileName)) ELSE Absent
                            [] l = "eh_frame" -> IF c.eh THEN Have(EhFrame(c)) ELSE Absent]
+\* P: what a reader must load = the stored content, relocated when the carrier is relocatable and the client asks for it
+ViewUnit(c) == IF c.rel # "none" /\ ~c.reloc THEN UnrelocUnit(c) ELSE MainUnit(c)
+PayloadP(c) == PayloadOf(c, ViewUnit(c))
+PayloadStored(c) == PayloadOf(c, IF c.rel # "none" THEN UnrelocUnit(c) ELSE MainUnit(c))
+PayloadDecoy(c) == PayloadOf(c, DecoyUnit(c))
 PayloadS(c) ==
   [l \in LogSet |-> CASE l = "info" -> Have(InfoBytes(<<SupUnit(c)>>)) [] l = "abbrev" -> Have(EncAbbrevs(SupDecls)) [] l = "str" -> Have(SupStrSec)
                       [] l = "debug_sup" -> IF c.sup = "debug_sup" THEN Have(DebugSupRec(c, 1, <<>>)) ELSE Absent [] OTHER -> Absent]
@@ -263,17 +301,56 @@ SecsOf(pay, plan, c) ==
   LET pres == SelectSeq(Logical, LAMBDA l : pay[l].p) IN
   [k \in 1..Len(pres) |-> EncSec(pres[k], pay[pres[k]].b, EncOfSec(plan, pres[k], c), c, BlkOf(plan))]
 LinkSec(c) == DbgSec(DotGnuDebuglink, 0, DebugLinkRec(DbgFileName(c), IF c.dl = "ok" THEN CrcTok ELSE BadTok))
-File(secs) == [present |-> TRUE, secs |-> secs]
-NoFile == [present |-> FALSE, secs |-> <<>>]
+\* ---- a relocatable carrier: symbol table, its string table, one relocation section for .debug_info (gABI ch.4)
+ShtSymtab == 2
+ShtStrtab == 3
+ShtRela == 4
+ShtRel == 9
+ShfInfoLink == 64
+\* psABIs: x86-64 and PPC64 ELFv1/v2 use Elf_Rela entries, i386 and MIPS o32 Elf_Rel entries
+RelUsesAddend(c) == c.cls = 64
+\* the "S + A" relocation of a w-byte data field: x86-64 psABI table 4.9 (R_X86_64_64 = 1, R_X86_64_32 = 10), i386 psABI (R_386_32 = 1),
+\* MIPS psABI (R_MIPS_32 = 2), PPC64 ELF ABI (R_PPC64_ADDR32 = 1, R_PPC64_ADDR64 = 38)
+RelTypeOf(c, w) == CASE MachOf(c) = 62 -> (IF w = 8 THEN 1 ELSE 10) [] MachOf(c) = 3 -> 1 [] MachOf(c) = 8 -> 2 [] MachOf(c) = 21 -> (IF w = 8 THEN 38 ELSE 1)
+RelWidthOf(mach, t) == IF (mach = 62 /\ t = 1) \/ (mach = 21 /\ t = 38) THEN 8 ELSE 4
+\* a 4-byte S + A relocation patches the low-order word of a wider field
+RelPlace(c, off, w) == IF w = 8 /\ RelWidthOf(MachOf(c), RelTypeOf(c, w)) = 4 /\ ~c.le THEN off + 4 ELSE off
+\* r_info: ELF64_R_INFO(sym, type) = sym << 32 + type, ELF32_R_INFO(sym, type) = sym << 8 + type
+RInfo(c, sym, t) == IF c.cls = 64 THEN W(<<t, 0, 0, 0, sym, 0, 0, 0>>) ELSE N(256 * sym + t)
+IxOfName(secs, n) == CHOOSE k \in 1..Len(secs) : secs[k].name = n
+RelocSecs(c, secs) ==              \* secs: the debug sections of the carrier, in section-index order (index k = position k)
+  LET infoName == IF \E k \in 1..Len(secs) : secs[k].name = DotDebugInfo THEN DotDebugInfo ELSE ZName(DotDebugInfo)
+      strName == IF \E k \in 1..Len(secs) : secs[k].name = DotDebugStr THEN DotDebugStr ELSE ZName(DotDebugStr)
+      w == OffSize(PCtx(c))
+      t == RelTypeOf(c, w)
+      symIx == Len(secs) + 1
+      strtabIx == Len(secs) + 2
+      sym == Ser(SymF(c.cls), [st_name |-> N(1), st_value |-> N(RelSymValue), st_size |-> Z, st_info |-> N(1), st_other |-> Z,
+                               st_shndx |-> N(IxOfName(secs, strName))], c.cls, c.le)                 \* STB_LOCAL, STT_OBJECT, defined in .debug_str
+      symtab == Rep(0, SizeOf(SymF(c.cls), c.cls)) \o sym
+      place == RelPlace(c, RelFieldOff(c), w)
+      ent == IF RelUsesAddend(c)
+             THEN Ser(RelaF, [r_offset |-> N(place), r_info |-> RInfo(c, 1, t), r_addend |-> N(RelAddend)], c.cls, c.le)
+             ELSE Ser(RelF, [r_offset |-> N(place), r_info |-> RInfo(c, 1, t)], c.cls, c.le)
+  IN << Sec(DotSymtab, N(ShtSymtab), Z, Z, symtab, N(Len(symtab)), N(strtabIx), N(2), N(c.cls \div 8), N(SizeOf(SymF(c.cls), c.cls))),
+        Sec(DotStrtab, N(ShtStrtab), Z, Z, <<0, 115, 0>>, N(3), Z, Z, N(1), Z),
+        \* the GNU tools name a relocation section after the (possibly renamed) section it applies to
+        Sec((IF RelUsesAddend(c) THEN DotRela ELSE DotRel) \o infoName, N(IF RelUsesAddend(c) THEN ShtRela ELSE ShtRel), N(ShfInfoLink), Z, ent, N(Len(ent)),
+            N(symIx), N(IxOfName(secs, infoName)), N(c.cls \div 8), N(Len(ent))) >>
+File(secs) == [present |-> TRUE, secs |-> secs, etype |-> 3]
+RelFile(secs) == [present |-> TRUE, secs |-> secs, etype |-> 1]          \* ET_REL
+NoFile == [present |-> FALSE, secs |-> <<>>, etype |-> 0]
 FilesOf(c) ==
-  LET carrier == SecsOf(IF c.plan = "none" THEN NoPayload(c) ELSE PayloadP(c), c.plan, c)          \* the file that carries the debug sections
+  LET dbg == SecsOf(IF c.plan = "none" THEN NoPayload(c) ELSE PayloadStored(c), c.plan, c)
+      carrier == IF c.rel = "none" THEN dbg ELSE dbg \o RelocSecs(c, dbg)                            \* the file that carries the debug sections
+      Car(secs) == IF c.rel = "none" THEN File(secs) ELSE RelFile(secs)
       stripped == SecsOf(NoPayload(c), "plain", c)
       link == IF c.dl = "none" THEN <<>> ELSE <<LinkSec(c)>>
-  IN [main |-> File((IF c.home = "main" THEN carrier ELSE stripped) \o link),
-      \* an unstripped file with a link: the linked file holds the same payload, plainly
-      linked |-> IF c.dl = "none" THEN NoFile ELSE File(IF c.home = "linked" THEN carrier ELSE SecsOf(PayloadP(c), "plain", c)),
+  IN [main |-> IF c.home = "main" THEN Car(carrier \o link) ELSE File(stripped \o link),
+      \* an unstripped file with a link: the file the link names holds ANOTHER payload, plainly
+      linked |-> IF c.dl = "none" THEN NoFile ELSE IF c.home = "linked" THEN Car(carrier) ELSE File(SecsOf(PayloadDecoy(c), "plain", c)),
       sup |-> IF c.sup \in {"altlink", "debug_sup"} THEN File(SecsOf(PayloadS(c), c.supplan, c)) ELSE NoFile]
-ImageOf(f, c) == [Im0 EXCEPT !.cls = c.cls, !.le = c.le, !.machine = MachOf(c), !.secs = f.secs]
+ImageOf(f, c) == [Im0 EXCEPT !.cls = c.cls, !.le = c.le, !.machine = MachOf(c), !.secs = f.secs, !.etype = N(f.etype)]
 
 (* --------------------------- configurations ---------------------------- *)
 AllClsLe == {<<64, TRUE>>, <<32, TRUE>>, <<32, FALSE>>, <<64, FALSE>>}
@@ -281,7 +358,9 @@ TwoClsLe == {<<64, TRUE>>, <<32, FALSE>>}
 VerFmt2 == {<<4, 32>>, <<5, 64>>}
 VerFmt4 == {<<3, 32>>, <<4, 32>>, <<4, 64>>, <<5, 64>>, <<5, 32>>}
 C0 == [fam |-> "", cls |-> 64, le |-> TRUE, ver |-> 4, fmt |-> 32, line |-> TRUE, eh |-> TRUE, plan |-> "plain", dl |-> "none", home |-> "main",
-       sup |-> "none", supplan |-> "plain", loader |-> FALSE, follow |-> TRUE, mix |-> <<>>]
+       sup |-> "none", supplan |-> "plain", loader |-> FALSE, follow |-> TRUE, mix |-> <<>>,
+       rel |-> "none",       \* "rel": the carrier is a relocatable object with a relocation on .debug_info
+       reloc |-> TRUE]       \* the client's relocate_dwarf_sections option
 \* the link families tie version/format to the container so that both DWARF flavours occur without another factor
 VerOf(cl, sup) == IF sup = "debug_sup" THEN 5 ELSE IF sup = "altlink" THEN 4 ELSE IF cl[1] = 64 THEN 5 ELSE 4
 FmtOf(cl) == IF cl[1] = 64 /\ cl[2] THEN 64 ELSE 32
@@ -306,6 +385,10 @@ DlinkConfigs == {[C0 EXCEPT !.fam = "dlink", !.cls = cl[1], !.le = cl[2], !.ver 
                             !.home = hd[1], !.dl = hd[2], !.loader = lo, !.follow = fo] :
                    cl \in ClsLeLinks, eh \in BOOLEAN, pl \in {"plain", "gabi", "z"},
                    hd \in {<<"linked", "ok">>, <<"linked", "badcrc">>, <<"main", "ok">>, <<"main", "badcrc">>}, lo \in BOOLEAN, fo \in BOOLEAN}
+                \* own debug info x link present: also the encodings in which only some sections are renamed / flagged
+                \cup {[C0 EXCEPT !.fam = "dlink", !.cls = cl[1], !.le = cl[2], !.ver = VerOf(cl, "none"), !.fmt = FmtOf(cl), !.plan = pl,
+                                 !.home = "main", !.dl = "ok", !.loader = TRUE, !.follow = fo] :
+                        cl \in ClsLeLinks, pl \in {"z_mixed", "gabi_info", "gabi_str"}, fo \in BOOLEAN}
                 \* the plain, link-free encoding of the same payloads (the reference of the family)
                 \cup {[C0 EXCEPT !.fam = "dlink", !.cls = cl[1], !.le = cl[2], !.ver = VerOf(cl, "none"), !.fmt = FmtOf(cl), !.eh = eh] :
                         cl \in ClsLeLinks, eh \in BOOLEAN}
@@ -316,12 +399,17 @@ SupConfigs == {[C0 EXCEPT !.fam = "sup", !.cls = cl[1], !.le = cl[2], !.ver = Ve
                                !.loader = lo, !.follow = fo] : cl \in ClsLeLinks, pl \in {"plain", "gabi", "z"}, lo \in BOOLEAN, fo \in BOOLEAN}
 \* stripped file -> debug file -> supplementary file
 ChainConfigs == {[C0 EXCEPT !.fam = "chain", !.cls = cl[1], !.le = cl[2], !.ver = VerOf(cl, su), !.fmt = FmtOf(cl), !.plan = pl, !.home = "linked", !.dl = "ok",
-                            !.sup = su, !.loader = lo, !.follow = fo] :
-                   cl \in ClsLeLinks, su \in {"altlink", "debug_sup"}, pl \in {"plain", "z"}, lo \in BOOLEAN, fo \in BOOLEAN}
+                            !.sup = su, !.loader = lo, !.follow = fo, !.reloc = rc] :
+                   cl \in ClsLeLinks, su \in {"altlink", "debug_sup"}, pl \in {"plain", "z"}, lo \in BOOLEAN, fo \in BOOLEAN, rc \in BOOLEAN}
+\* a relocatable carrier, opened directly or reached through a link, with and without relocate_dwarf_sections
+RlinkConfigs == {[C0 EXCEPT !.fam = "rlink", !.cls = cl[1], !.le = cl[2], !.ver = VerOf(cl, "none"), !.fmt = FmtOf(cl), !.plan = pl, !.rel = "rel",
+                            !.home = hd[1], !.dl = hd[2], !.loader = TRUE, !.follow = fo, !.reloc = rc] :
+                   cl \in ClsLeLinks, pl \in {"plain", "gabi", "z"}, hd \in {<<"main", "none">>, <<"linked", "ok">>, <<"main", "ok">>},
+                   fo \in BOOLEAN, rc \in BOOLEAN}
 Configs == (IF "enc" \in Families /\ "mix" \in Plans THEN MixConfigs ELSE {}) \cup (IF "sup" \in Families /\ "mix" \in Plans THEN SupMixConfigs ELSE {}) \cup
            (IF "enc" \in Families THEN EncConfigs ELSE {}) \cup (IF "nodwarf" \in Families THEN NoDwarfConfigs ELSE {})
            \cup (IF "dlink" \in Families THEN DlinkConfigs ELSE {}) \cup (IF "sup" \in Families THEN SupConfigs ELSE {})
-           \cup (IF "chain" \in Families THEN ChainConfigs ELSE {})
+           \cup (IF "chain" \in Families THEN ChainConfigs ELSE {}) \cup (IF "rlink" \in Families THEN RlinkConfigs ELSE {})
 
 (* ----------------------------- the reader ------------------------------ *)
 SecIx(f, name) == {k \in 1..Len(f.secs) : f.secs[k].name = name}
@@ -366,6 +454,15 @@ Advance(g) == /\ got' = g
               /\ IF ix < Len(Logical) THEN ix' = ix + 1 /\ pc' = "read" ELSE ix' = ix /\ pc' = "links"
               /\ buf' = <<>>
               /\ UNCHANGED <<cfg, files, cur, fl, err>>
+\* gABI: a section of type SHT_REL / SHT_RELA holds the relocations of the section whose index is its sh_info
+RelocSecsFor(f, n) == {k \in 1..Len(f.secs) : f.secs[k].type.n \in {ShtRel, ShtRela} /\ f.secs[k].info.n = IxOfName(f.secs, n)}
+\* the logical (uncompressed) content d of the current section is complete: relocate it if the client asked for that and the
+\* file has relocations for it, else deliver it
+Deliver(d) ==
+  LET l == Logical[ix]   f == files[cur] IN
+  IF cfg.reloc /\ RelocSecsFor(f, PhysName(f, l)) # {}
+  THEN buf' = d /\ pc' = "reloc" /\ UNCHANGED <<cfg, files, cur, fl, ix, got, err>>
+  ELSE Advance([got EXCEPT ![Slot][l] = Have(d)])
 ReadSection ==
   /\ pc = "read"
   /\ LET l == Logical[ix]   f == files[cur]   n == PhysName(f, l) IN
@@ -373,7 +470,31 @@ ReadSection ==
      ELSE LET s == SecNamed(f, n) IN
           IF Compressed(s) THEN buf' = s.data /\ pc' = "gabi" /\ UNCHANGED <<cfg, files, cur, fl, ix, got, err>>
           ELSE IF IsZName(n) THEN buf' = s.data /\ pc' = "legacy" /\ UNCHANGED <<cfg, files, cur, fl, ix, got, err>>
-          ELSE Advance([got EXCEPT ![Slot][l] = Have(s.data)])
+          ELSE Deliver(s.data)
+\* ---- relocation entries read back from the bytes of the relocation section and of the symbol table it links to
+FOff(F, cls, name) == LET i == CHOOSE i \in 1..Len(F) : F[i][1] = name IN SumR([j \in 1..Len(F) |-> Width(F[j][2], cls)], 1, i - 1)
+FWid(F, cls, name) == LET i == CHOOSE i \in 1..Len(F) : F[i][1] = name IN Width(F[i][2], cls)
+FDigits(F, cls, le, bs, base, name) == LET raw == Slice(bs, base + FOff(F, cls, name) + 1, FWid(F, cls, name)) IN IF le THEN raw ELSE Rev(raw)
+RECURSIVE ApplyRelocs(_, _, _, _)
+ApplyRelocs(d, f, k, i) ==          \* d: section content, k: index of the relocation section in f.secs, i: next entry (0-based)
+  LET rs == f.secs[k]
+      F == IF rs.type.n = ShtRela THEN RelaF ELSE RelF
+      es == SizeOf(F, cfg.cls)
+  IN IF (i + 1) * es > Len(rs.data) THEN d
+     ELSE LET off == NatOf(FDigits(F, cfg.cls, cfg.le, rs.data, i * es, "r_offset"))
+              info == FDigits(F, cfg.cls, cfg.le, rs.data, i * es, "r_info")
+              t == IF cfg.cls = 64 THEN NatOf(SubSeq(info, 1, 4)) ELSE info[1]
+              sym == IF cfg.cls = 64 THEN NatOf(SubSeq(info, 5, 8)) ELSE NatOf(SubSeq(info, 2, 4))
+              w == RelWidthOf(MachOf(cfg), t)
+              symtab == f.secs[rs.link.n].data
+              symv == NatOf(FDigits(SymF(cfg.cls), cfg.cls, cfg.le, symtab, sym * SizeOf(SymF(cfg.cls), cfg.cls), "st_value"))
+              addend == IF rs.type.n = ShtRela THEN NatOf(FDigits(F, cfg.cls, cfg.le, rs.data, i * es, "r_addend"))
+                        ELSE SmallDec(Slice(d, off + 1, w), cfg.le, FALSE)                     \* Elf_Rel: the addend is the place's content
+          IN ApplyRelocs(SubSeq(d, 1, off) \o Fix(N(symv + addend), w, cfg.le) \o SubSeq(d, off + w + 1, Len(d)), f, k, i + 1)
+Relocate ==
+  /\ pc = "reloc"
+  /\ LET f == files[cur]   k == CHOOSE k \in RelocSecsFor(f, PhysName(f, Logical[ix])) : TRUE IN
+     Advance([got EXCEPT ![Slot][Logical[ix]] = Have(ApplyRelocs(buf, f, k, 0))])
 \* gABI: the data of a SHF_COMPRESSED section start with an Elf_Chdr; ch_size is the size of the uncompressed data
 InflateGabi ==
   /\ pc = "gabi"
@@ -385,7 +506,7 @@ InflateGabi ==
         ELSE IF Digits(ctype, 4) # <<1, 0, 0, 0>> THEN Fail("type")
         ELSE LET d == Inflate(SubSeq(buf, hs + 1, Len(buf))) IN
              IF Len(d) # csize THEN Fail("size")
-             ELSE Advance([got EXCEPT ![Slot][Logical[ix]] = Have(d)])
+             ELSE Deliver(d)
 \* legacy GNU: "ZLIB", 8-byte big-endian size, zlib stream
 InflateLegacy ==
   /\ pc = "legacy"
@@ -393,7 +514,7 @@ InflateLegacy ==
      ELSE IF SubSeq(buf, 1, 4) # ZlibMagic THEN Fail("magic")
      ELSE LET size == SmallDec(SubSeq(buf, 5, 12), FALSE, FALSE)   d == Inflate(SubSeq(buf, 13, Len(buf))) IN
           IF Len(d) # size THEN Fail("zsize")
-          ELSE Advance([got EXCEPT ![Slot][Logical[ix]] = Have(d)])
+          ELSE Deliver(d)
 \* the supplementary file is opened without a loader of its own: its links are not followed
 LoadSupplementary ==
   /\ pc = "links"
@@ -416,7 +537,7 @@ LoadAll(f) == [l \in LogSet |->
                      ELSE Have(s.data)]
 Loaded == pc = "done" /\ err = "" /\ got.home["info"].p
 \* which configurations are questioned: those with link sections (and a few without, whose answers are all "none")
-QueryOn(c) == \/ c.fam \in {"sup", "chain"} /\ (Wide \/ c.supplan = "plain")
+QueryOn(c) == \/ c.fam \in {"sup", "chain"} /\ (Wide \/ c.supplan = "plain") /\ c.reloc
               \/ c.fam = "enc" /\ ~c.line /\ c.plan \in {"plain", "gabi", "z"}
 \* the machine's answer, from the bytes it loaded
 Answer(q) ==
@@ -430,7 +551,7 @@ Ask == /\ Loaded /\ QueryOn(cfg) /\ Len(qs) < MaxQueries
 \* final states stutter, so that deadlock checking reports every other stuck state (the constraint Emit is therefore evaluated
 \* twice per final state: the driver keys the lines)
 Done == pc = "done" /\ UNCHANGED vars
-Load == Build \/ CheckLink \/ FollowDebugLink \/ ReadSection \/ InflateGabi \/ InflateLegacy \/ LoadSupplementary
+Load == Build \/ CheckLink \/ FollowDebugLink \/ ReadSection \/ InflateGabi \/ InflateLegacy \/ Relocate \/ LoadSupplementary
 Next == (Load /\ UNCHANGED <<qs, ans>>) \/ Ask \/ Done
 Spec == Init /\ [][Next]_vars
 
@@ -455,7 +576,7 @@ Alternatives(c) == IF c.home = "main" /\ c.dl = "badcrc" /\ c.loader /\ c.follow
 \* which file's eh_frame a reader sees: that of the file whose sections were loaded (both carry the same one here)
 
 (* ------------------------------ properties ----------------------------- *)
-TypeOK == /\ pc \in {"build", "open", "crc", "read", "gabi", "legacy", "links", "done"}
+TypeOK == /\ pc \in {"build", "open", "crc", "read", "gabi", "legacy", "reloc", "links", "done"}
           /\ cur \in {"main", "linked", "sup"} /\ fl \in BOOLEAN /\ ix \in 0..Len(Logical)
 Invariance ==
   (pc = "done" /\ Expect(cfg) = "loaded") =>
@@ -466,6 +587,25 @@ Invariance ==
      /\ (SupLoaded => got.sup = PayloadS(cfg))
      /\ (~SupLoaded => got.sup = Got0.sup)
 OutcomeMatches == pc = "done" => Outcome = Expect(cfg)
+\* the relocatable carrier: the stored and the relocated .debug_info differ, in exactly the relocated field; applying the file's
+\* relocation entries (read back from its bytes) to the stored content gives the relocated unit; what was loaded is the one the
+\* option selects - in the opened file and behind a link alike
+DiffAt(a, b) == {i \in 1..Len(a) : a[i] # b[i]}
+RelocMatters ==
+  (pc = "done" /\ cfg.rel # "none") =>
+     LET st == InfoBytes(<<UnrelocUnit(cfg)>>)   re == InfoBytes(<<MainUnit(cfg)>>)   w == OffSize(PCtx(cfg))
+         car == files[cfg.home]
+         ks == RelocSecsFor(car, PhysName(car, "info"))
+     IN /\ Len(st) = Len(re) /\ DiffAt(st, re) # {} /\ DiffAt(st, re) \subseteq (RelFieldOff(cfg) + 1)..(RelFieldOff(cfg) + w)
+        /\ Cardinality(ks) = 1 /\ \A k \in ks : ApplyRelocs(st, car, k, 0) = re
+        /\ \A l \in LogSet \ {"info"} : PhysName(car, l) = <<>> \/ RelocSecsFor(car, PhysName(car, l)) = {}
+        /\ (Expect(cfg) = "loaded" => got.home["info"].b = (IF cfg.reloc THEN re ELSE st))
+\* an unstripped file wins over its link: the file the link names holds other data, and they are never what was loaded
+DecoyNeverLoaded ==
+  (pc = "done" /\ cfg.home = "main" /\ cfg.dl # "none" /\ cfg.plan # "none") =>
+     /\ PayloadDecoy(cfg)["info"] # PayloadP(cfg)["info"]
+     /\ LoadAll(files.linked)["info"] = PayloadDecoy(cfg)["info"]
+     /\ got.home["info"] # PayloadDecoy(cfg)["info"]
 BadCrcRejected == pc = "done" => ((err = "crc") <=> (Followed(cfg) /\ cfg.dl = "badcrc"))
 BadSizeRejected == pc = "done" => /\ (cfg.plan \in {"gabi_badsize", "gabi_smallsize"} /\ Expect(cfg) # "nodwarf" => err = "size")
                                   /\ (cfg.plan \in {"z_badsize", "z_smallsize"} /\ Expect(cfg) # "nodwarf" => err = "zsize")
@@ -505,19 +645,20 @@ SupAgain == (\E i \in 1..Len(ans) : ans[i].q = "sup" /\ ans[i].p) => LoadAll(fil
 Rank(r) == CASE r = "main" -> 2 [] r = "linked" -> 1 [] r = "sup" -> 0
 ASSUME MaxQueries \in 0..7
 Measure == (MaxQueries - Len(qs)) + 8 * Rank(cur) * 64 + 8 * (CASE pc = "build" -> 63 [] pc = "open" -> 60 [] pc = "crc" -> 59 [] pc = "read" -> 50 - 4 * ix [] pc = "gabi" -> 49 - 4 * ix
-                               [] pc = "legacy" -> 48 - 4 * ix [] pc = "links" -> 2 [] pc = "done" -> 0)
+                               [] pc = "legacy" -> 48 - 4 * ix [] pc = "reloc" -> 47 - 4 * ix [] pc = "links" -> 2 [] pc = "done" -> 0)
 Progress == [][Measure' < Measure]_vars
 MeasureNat == Measure >= 0
 
 (* ------------------------------- emission ------------------------------ *)
 Bit(b) == IF b THEN 1 ELSE 0
 \* key of the images a configuration uses (everything but loader / follow), and of the plain reference of the same payload
-ImgKey(c) == <<c.cls, Bit(c.le), c.ver, c.fmt, Bit(c.line), Bit(c.eh), c.plan, c.dl, c.home, c.sup, c.supplan, c.mix>>
+ImgKey(c) == <<c.cls, Bit(c.le), c.ver, c.fmt, Bit(c.line), Bit(c.eh), c.plan, c.dl, c.home, c.sup, c.supplan, c.mix, c.rel>>
 \* class of a plan for reports: a per-section plan is named after how .debug_info is stored
 PlanTag(c) == IF c.plan = "mix" THEN "mix.info-" \o c.mix[1] ELSE c.plan
-RefKey(c, suploaded) == <<c.cls, Bit(c.le), c.ver, c.fmt, Bit(c.line), Bit(c.eh), c.sup, Bit(suploaded)>>
+\* the reference of a relocatable carrier is the plain, link-free object under the same relocate option
+RefKey(c, suploaded) == <<c.cls, Bit(c.le), c.ver, c.fmt, Bit(c.line), Bit(c.eh), c.sup, Bit(suploaded), c.rel, IF c.rel = "none" THEN 1 ELSE Bit(c.reloc)>>
 IsRef(c) == c.plan = "plain" /\ c.dl = "none" /\ c.supplan = "plain" /\ c.home = "main"
-CanonForImages(c) == c.follow /\ (c.loader = (c.fam \notin {"enc", "nodwarf"} /\ ~(c.fam = "dlink" /\ c.dl = "none")))
+CanonForImages(c) == c.follow /\ c.reloc /\ (c.loader = (c.fam \notin {"enc", "nodwarf"} /\ ~(c.fam = "dlink" /\ c.dl = "none")))
 ImgLine(role) ==
   LET im == ImageOf(files[role], cfg)
       lk == SecIx(files[role], DotGnuDebuglink)
@@ -527,6 +668,7 @@ ImgLine(role) ==
 CaseLine ==
   [k |-> "case", fam |-> cfg.fam, img |-> ImgKey(cfg), cls |-> cfg.cls, le |-> cfg.le, ver |-> cfg.ver, fmt |-> cfg.fmt, plan |-> cfg.plan, plantag |-> PlanTag(cfg), mix |-> cfg.mix,
    dl |-> cfg.dl, home |-> cfg.home, sup |-> cfg.sup, supplan |-> cfg.supplan, loader |-> cfg.loader, follow |-> cfg.follow,
+   rel |-> cfg.rel, reloc |-> cfg.reloc,
    isref |-> IsRef(cfg), refkey |-> RefKey(cfg, SupLoaded),
    \* the view
    outcome |-> Outcome, alt |-> Alternatives(cfg), suploaded |-> SupLoaded,
@@ -538,13 +680,13 @@ CaseLine ==
    eh |-> got.home["eh_frame"].p]
 \* the specification's view of the payload's units (C04's view), once per reference
 ViewLine ==
-  [k |-> "view", refkey |-> RefKey(cfg, SupLoaded), units |-> <<UnitView(MainUnit(cfg), 0)>>,
+  [k |-> "view", refkey |-> RefKey(cfg, SupLoaded), units |-> <<UnitView(ViewUnit(cfg), 0)>>,
    altform |-> AltFormOf(cfg.sup),
    altval |-> IF SupLoaded THEN [k |-> "bytes", b |-> CStrAt(SupStrSec, SupStrOff).s] ELSE [k |-> "num", v |-> N(SupStrOff)]]
 \* one line per maximal sequence of questions (its prefixes are part of it)
 QueryLine ==
   [k |-> "query", fam |-> cfg.fam, img |-> ImgKey(cfg), le |-> cfg.le, plantag |-> PlanTag(cfg), dl |-> cfg.dl, sup |-> cfg.sup, crc_ok |-> cfg.dl = "ok",
-   loader |-> cfg.loader, follow |-> cfg.follow, refkey |-> RefKey(cfg, SupLoaded), suprefkey |-> RefKey(cfg, TRUE),
+   loader |-> cfg.loader, follow |-> cfg.follow, reloc |-> cfg.reloc, refkey |-> RefKey(cfg, SupLoaded), suprefkey |-> RefKey(cfg, TRUE),
    files |-> [linked |-> IF files.linked.present THEN DbgFileName(cfg) ELSE <<>>, sup |-> IF files.sup.present THEN SupFileName ELSE <<>>],
    qs |-> qs, ans |-> ans]
 Emit ==
